@@ -6,6 +6,19 @@ ENV = "GOFLAGS=-mod=mod GOPROXY=off GOSUMDB=off GOTOOLCHAIN=local GOWORK=off"
 
 # id -> (technique, level text, level note, design ref)
 CLAIMED = {
+    "C16": ("guard/dominance rules on the CFG of the lookup functions in set.go with condition facts; flag-threading closure; error discipline",
+            "Decides the guard structure that makes the cache coherent: Cache.Get only outside development mode and a hit returns the cached pointer before any Loader call; "
+            "a single Cache.Put dominated by err == nil && flag && !developmentMode storing the just-loaded template under the looked-up path; the cache flag threaded unchanged "
+            "through the parse cycle (Set.Parse passes false); extension list only ranged over, first hit returns, Open/parse get the path Exists accepted; no error of Open/ReadAll/parse dropped. "
+            "Histories against real caches/loaders are not explored: these are necessary structural conditions.",
+            "Assumes Cache implementations return what was Put under the same key; stdlib trusted; facts on Set/Template fields are treated as stable during a lookup (discharged by C11.frozen).",
+            "DESIGN.md §4 C16"),
+    "C15": ("flow-sensitive sanitiser (taint) analysis on CFGs with condition facts, inductive over parameters and over the Template.Name / NodeBase.TemplatePath fields",
+            "Decides that every path reaching Loader.Exists/Open, Cache.Get/Put or Template.Name was made absolute and lexically clean by path.Clean under path.IsAbs or by path.Join rooted at a clean "
+            "path (after filepath.ToSlash), on every CFG path and through every caller (greatest fixpoint), and that each entry point passes the right referrer (root, the parsing template's Name, "
+            "the include node's TemplatePath) whose directory relative names are joined to. This is the sanitiser-placement half of the property; string results of path.Clean/Join are trusted.",
+            "Trusts path.Clean/Join/Dir/IsAbs and filepath.ToSlash; extensions are assumed separator-free; custom loaders are out of scope.",
+            "DESIGN.md §4 C15"),
     "C20": ("exhaustiveness + child-coverage + nil-belief lint over the type-checked AST of utils/visitor.go vs node.go",
             "Decides, for every node type and child field the parser can build, that the visitor has a case, visits each child exactly once "
             "from an unconditional / nil-guarded / range call site, guards every field package jet believes nullable, and never re-visits its own node. "
